@@ -64,6 +64,16 @@ def c1_closure(it, fn):
     it.buf.replace_span(m.start(), m.end(), head, ("rule", "C1"))
 
 
+def apply_loop_rules(it, fn):
+    """R2 / R3a wherever they match in fn (either spelling of "push n semicolons" may be used by either encoder)"""
+    n = it.rule_opt("R2", r"\(0\.\.([^\n]+?)\)\s*\.for_each\(\|_\|\s*([^\n]+?)\);(?=[ \t]*\n)", r"for _i in 0..\1 { \2; }", fn=fn)
+    n += it.rule_opt("R3a", r"([\w\.]+?)\s*\.mappings\s*\.extend\((?:std::iter::)?repeat\(b';'\)\.take\(([^\n]+?)\)\);",
+                     r"for _i in 0..\2 { \1.mappings.push(b';'); }", fn=fn)
+    n += it.rule_opt("R3a", r"([\w\.]+?)\s*\.mappings\s*\.extend\((?:std::iter::)?repeat_n\(b';',\s*([^\n]+?)\)\);",
+                     r"for _i in 0..\2 { \1.mappings.push(b';'); }", fn=fn)
+    return n
+
+
 def r3_extend_literal(it, fn):
     """R3b: `V.extend(b"xyz");` -> `V.push(b'x'); V.push(b'y'); V.push(b'z');` (Vec<u8>::extend over a byte
     string pushes its bytes in order; Verus knows a byte-string literal's length but not its contents)."""
@@ -72,7 +82,7 @@ def r3_extend_literal(it, fn):
         s = it.buf.text
         lo, _, hi = it.fn_span(fn)
         m = None
-        for mm in re.finditer(r'([\w\.]+)\.extend\(b"([A-Za-z0-9+/,;]*)"\);', s):
+        for mm in re.finditer(r'([\w\.]+)\.extend(?:_from_slice)?\(b"([A-Za-z0-9+/,;]*)"\);', s):
             if lo <= mm.start() < hi:
                 m = mm
                 break
@@ -217,7 +227,7 @@ def build(u):
     f.rule("D1", r"impl MappingsEncoder for FullMappingsEncoder \{", "impl FullMappingsEncoder {")
     f.rule("D2", r"#\[allow\(unsafe_code\)\]\n", "")
     c1_closure(f, "encode")
-    f.rule("R2", r"\(0\.\.([^\n]+?)\)\s*\.for_each\(\|_\|\s*([^\n]+?)\);(?=[ \t]*\n)", r"for _i in 0..\1 { \2; }", fn="encode")
+    apply_loop_rules(f, "encode")
     f.sig("encode", [
         ("FullMappingsEncoder::encode.requires", "contract",
          "requires es_in_dom(old(self).es()), m_in_dom(*mapping), old(self).es().line <= mapping.generated_line, all_wire(old(self).bytes())"),
@@ -275,9 +285,8 @@ def build(u):
     g = u.item("src/encoder.rs", "impl MappingsEncoder for LinesOnlyMappingsEncoder {")
     g.rule("D1", r"impl MappingsEncoder for LinesOnlyMappingsEncoder \{", "impl LinesOnlyMappingsEncoder {")
     g.rule("D2", r"#\[allow\(unsafe_code\)\]\n", "")
-    g.rule("R3a", r"self\s*\.mappings\s*\.extend\(std::iter::repeat\(b';'\)\.take\(([^\n]+?)\)\);",
-           r"for _i in 0..\1 { self.mappings.push(b';'); }", fn="encode")
-    u.r3b_sites = r3_extend_literal(g, "encode")
+    apply_loop_rules(g, "encode")
+    u.r3b_sites = r3_extend_literal(g, "encode") + r3_extend_literal(f, "encode")
     g.sig("encode", [
         ("LinesOnlyMappingsEncoder::encode.requires", "contract",
          "requires ls_inv(old(self).ls()), m_in_dom(*mapping), old(self).ls().line <= mapping.generated_line, all_wire(old(self).bytes())"),
